@@ -119,10 +119,15 @@ def corpus(pid):
 
 
 def load_scn(path):
+    """scenarios of a corpus / replay file; '#= ' lines after a scenario are its expected output"""
     out = []
     cur = None
     for ln in open(path):
         ln = ln.rstrip("\n")
+        if ln.startswith("#= ") or ln == "#=":
+            if out:
+                out[-1].meta.setdefault("expect", []).append(ln[3:])
+            continue
         if ln.startswith("#"):
             continue
         if ln.startswith("BEGIN "):
@@ -134,6 +139,16 @@ def load_scn(path):
         elif cur is not None and ln.strip():
             cur.lines.append(ln)
     return out
+
+
+def corpus_oracle(s, il):
+    exp = s.meta.get("expect")
+    if exp is None:
+        return None
+    if il != exp:
+        fd = scn.first_diff(il, exp)
+        return "regression witness %s: output line %d is %r, expected %r" % (s.id, fd[0], fd[1], fd[2])
+    return None
 
 
 def shrink(s, still_bad, budget=80):
@@ -230,7 +245,9 @@ def run_property(mod, tier, seed, replay=None):
             if ist != "ok":
                 msg = "implementation side ended with %s (sanitizer report, crash or hang)" % ist
             else:
-                msg = mod.oracle(s, il)
+                msg = corpus_oracle(s, il) if "corpus" in s.meta else None
+                if msg is None:
+                    msg = mod.oracle(s, il)
             if msg:
                 handle_violation(mod, res, harness, s, il, ist, ml, msg)
             elif il != ml or mst != "ok":
